@@ -134,9 +134,9 @@ Proof.
   intros st Hinv. unfold st_inv in Hinv. apply andb_true_iff in Hinv. destruct Hinv as [Hhosts Hrest].
   unfold inv_hostrefs in Hhosts. rewrite forallb_forall in Hhosts.
   unfold inv_rest in Hrest. repeat rewrite andb_true_iff in Hrest.
-  destruct Hrest as [[[[[[[Hpass Hdefroot] Hbacks] Hbinds] Hdefault] Htcp] Hnodup] _].
+  destruct Hrest as [[[[[[Hpass Hbacks] Hbinds] Hdefault] Htcp] Hnodup] _].
   apply Bool.eqb_prop in Hpass.
-  rewrite forallb_forall in Hbacks, Hbinds, Hdefault, Htcp, Hdefroot.
+  rewrite forallb_forall in Hbacks, Hbinds, Hdefault, Htcp.
   split; [|now apply sid_nodupb_NoDup].
   assert (Hsub : forall h, In h (ts_hosts st) -> In h (all_hosts st))
     by (intros h Hh; unfold all_hosts; apply in_or_app; now left).
@@ -189,11 +189,8 @@ Proof.
       apply andb_true_iff in Hc. destruct Hc as [Hne _]. eapply em_path_back; eauto.
     - destruct (ts_defhost st) as [dh|] eqn:E; [|destruct Hr].
       destruct (th_pass dh) eqn:Ep; [|destruct Hr].
-      apply in_flat_map_if in Hr. destruct Hr as [p [Hp [Hroot [<-|[]]]]]. cbn [snd].
-      assert (Hne : nonempty (tp_back p) = true).
-      { specialize (Hdefroot dh). unfold opt_list in Hdefroot. rewrite ?E in Hdefroot.
-        specialize (Hdefroot (or_introl eq_refl)). rewrite ?Ep in Hdefroot. cbn [negb orb] in Hdefroot.
-        rewrite forallb_forall in Hdefroot. specialize (Hdefroot p Hp). rewrite ?Hroot in Hdefroot. exact Hdefroot. }
+      apply in_flat_map_if in Hr. destruct Hr as [p [Hp [Hc [<-|[]]]]]. cbn [snd].
+      apply andb_true_iff in Hc. destruct Hc as [_ Hne].
       eapply em_path_back; eauto. }
   apply in_app_or in Hr. destruct Hr as [Hr|Hr].
   { (* _front_http *)
